@@ -234,12 +234,12 @@ public:
 
   int compare(const String& other) const
   {
-    const char* s1 = *this, * s2 = other;
-    for(; *s1 == *s2; ++s1, ++s2)
-      if(!*s1)
-        return 0;
-    return (int)*(const uchar*)s1 - *(const uchar*)s2;
-
+    const uchar* s1 = (const uchar*)data->str, * s2 = (const uchar*)other.data->str;
+    usize len = data->len < other.data->len ? data->len : other.data->len; // length delimited: a string may contain NUL bytes or be attached to unterminated text
+    for(const uchar* end = s1 + len; s1 < end; ++s1, ++s2)
+      if(*s1 != *s2)
+        return (int)*s1 - *s2;
+    return data->len < other.data->len ? -1 : data->len > other.data->len ? 1 : 0;
   }
 
   int compare(const String& other, usize len) const
@@ -299,7 +299,7 @@ public:
   String& replace(char needle, char replacement)
   {
     detach(data->len, data->len);
-    for (char* str = (char*)data->str; *str; ++str)
+    for (char* str = (char*)data->str, * end = str + data->len; str < end; ++str)
       if(*str == needle)
         *str = replacement;
     return *this;
@@ -338,7 +338,7 @@ public:
   String& toLowerCase()
   {
     detach(data->len, data->len);
-    for (char* str = (char*)data->str; *str; ++str)
+    for (char* str = (char*)data->str, * end = str + data->len; str < end; ++str)
       *str = lowerCaseMap[*(uchar*)str];
     return *this;
   }
@@ -346,7 +346,7 @@ public:
   String& toUpperCase()
   {
     detach(data->len, data->len);
-    for (char* str = (char*)data->str; *str; ++str)
+    for (char* str = (char*)data->str, * end = str + data->len; str < end; ++str)
       *str = upperCaseMap[*(uchar*)str];
     return *this;
   }
